@@ -1,6 +1,7 @@
 package c20
 
 import (
+	"strings"
 	"bytes"
 	"fmt"
 	"os"
@@ -284,6 +285,7 @@ func randText(r *core.Rand, n int) string {
 func mkTree(r *core.Rand, kind string) *tree {
 	t := &tree{kind: kind, files: map[string]string{}, entryRel: "main.ecal"}
 	t.x = r.Range(0, 40)
+	bigLib := false
 	switch kind {
 	case "none":
 	case "flat":
@@ -320,15 +322,32 @@ func mkTree(r *core.Rand, kind string) *tree {
 		t.files["sub/main.ecal"] = "100002\n"
 	case "big":
 		t.lib = "lib.ecal"
+		// sizes on both sides of 32 KiB (one Read of a deflate stream returns
+		// at most 32 KiB) and of 64 KiB
 		n := r.Range(9000, 30000)
+		switch r.Intn(3) {
+		case 1:
+			n = r.Range(32700, 70000)
+		case 2:
+			n = r.Range(100000, 260000)
+		}
 		b := make([]byte, n)
 		for i := range b {
 			b[i] = byte(r.U64())
 		}
 		t.files["big.bin"] = string(b)
+		// a large compressible text file
+		line := "the quick brown fox jumps over the lazy dog 0123456789\n"
+		t.files["doc/big.txt"] = strings.Repeat(line, r.Range(700, 3000)) + randText(r, 10)
+		bigLib = r.Bool()
 	}
 	if t.lib != "" {
-		t.files[t.lib] = fmt.Sprintf("# library\nx := %d\nfunc twice(a) {\n    return a * 2\n}\n", t.x)
+		lib := fmt.Sprintf("# library\nx := %d\nfunc twice(a) {\n    return a * 2\n}\n", t.x)
+		if bigLib {
+			// an imported ECAL file of more than 32 KiB: the definitions come last
+			lib = strings.Repeat("# padding padding padding padding padding padding padding\n", r.Range(650, 1500)) + lib
+		}
+		t.files[t.lib] = lib
 	}
 	return t
 }
